@@ -350,8 +350,9 @@ impl LockFreeMemoryPool {
             return Err(ZiporaError::invalid_data("Cannot allocate zero bytes"));
         }
 
-        // A request so large that rounding it up overflows can never be satisfied
-        if size > usize::MAX - (ALIGN_SIZE - 1) {
+        // No allocation can exceed isize::MAX bytes; refusing such a request here also keeps
+        // the size arithmetic below free of overflow
+        if size > isize::MAX as usize {
             return Err(ZiporaError::out_of_memory(size));
         }
         let aligned_size = self.align_size(size);
@@ -368,7 +369,7 @@ impl LockFreeMemoryPool {
         if size == 0 {
             return Ok(());
         }
-        if size > usize::MAX - (ALIGN_SIZE - 1) {
+        if size > isize::MAX as usize {
             return Err(ZiporaError::invalid_data("Size was never allocated by this pool"));
         }
 
